@@ -300,6 +300,11 @@ pub fn decode_table(fs: &Fs) -> Option<Option<BTreeMap<String, MFileState>>>
 /// Canonical, order-independent digest of everything ruler can observe in `fs`.
 /// mtimes are replaced by their rank among all timestamps in the state; state files
 /// are compared decoded (HashMap serialisation order is random and unobservable).
+pub fn is_state_file(p: &str) -> bool
+{
+    p == TABLE_FILE || p.starts_with(".ruler/history/") || p.starts_with(".ruler/current_file_states")
+}
+
 pub fn canon_key(fs: &Fs, extra: &[u8]) -> [u8; 16]
 {
     let table = decode_table(fs);
@@ -308,8 +313,11 @@ pub fn canon_key(fs: &Fs, extra: &[u8]) -> [u8; 16]
     // the *partition* of the timestamps into equal classes is observable.  Canonical
     // numbering: first occurrence in path order (files, then table entries).
     let mut rank: BTreeMap<u64, u32> = BTreeMap::new();
-    for (_p, n) in fs.map.iter()
+    for (p, n) in fs.map.iter()
     {
+        // the modification times of ruler's own state files are not observable (ruler reads their
+        // content only): leaving them out keeps the key a function of the observable state
+        if is_state_file(p) { continue; }
         if let Node::File(f) = n
         {
             let next = rank.len() as u32;
@@ -330,8 +338,11 @@ pub fn canon_key(fs: &Fs, extra: &[u8]) -> [u8; 16]
     {
         if p == TABLE_FILE || p.starts_with(".ruler/history/")
         {
+            // a leftover temporary file is observable by its presence (its name is hashed), not by its date
+            if p.ends_with(".tmp") { put(p.as_bytes()); put(b"T"); }
             continue;
         }
+        if is_state_file(p) { put(p.as_bytes()); put(b"T"); continue; }
         put(p.as_bytes());
         match n
         {
